@@ -971,7 +971,11 @@ def rule_J(ctx):
              ('a=a+b', 'a', lambda: [x + y for x, y in zip(VAL['a'], VAL['b'])]), ('q=a', 'q', lambda: list(VAL['a'])), ('c=a', 'c', lambda: list(VAL['a'])),
              ('b=a*2', 'b', lambda: [2 * x for x in VAL['a']]), ('q=SUM{a}', 'q', lambda: [sum(VAL['a'])] * N), ('a+b', None, None), ('a', None, None),
              ('a*(b+c)+SUM{a}', None, None), ('q=5', 'q', lambda: [5.0] * N), ('b=5', 'b', lambda: [5.0] * N), ('x=a', 'x', lambda: list(VAL['a'])),
-             ('q=D{a}+I{b}', 'q', None), ('a=b', 'a', lambda: list(VAL['b'])), ('a=a', 'a', lambda: list(VAL['a'])), ('c=c', 'c', lambda: list(VAL['c']))]
+             ('q=D{a}+I{b}', 'q', None), ('a=b', 'a', lambda: list(VAL['b'])), ('a=a', 'a', lambda: list(VAL['a'])), ('c=c', 'c', lambda: list(VAL['c'])),
+             # long expressions: more than ten, and more than a hundred, evaluator temporaries (#0 ... #11, #0 ... #101)
+             ('q=' + '+'.join(['a', 'b'] * 6 + ['a']), 'q', lambda: [7 * x + 6 * y for x, y in zip(VAL['a'], VAL['b'])]),
+             ('+'.join(['a', 'b'] * 6 + ['a']), None, None),
+             ('b=' + '+'.join(['a'] * 103), 'b', lambda: [103 * x for x in VAL['a']])]
     n_ex = 0
     for order in orders_ + [('a', 'c', 'b')]:
         for text, target, want in exprs:
